@@ -11,6 +11,9 @@ AXIS = 'dimarray.core.axes.Axis'
 AXES = 'dimarray.core.axes.Axes'
 
 
+P_HOLDER = []
+
+
 def tok(name):
     return Sym('tok', name)
 
@@ -172,6 +175,8 @@ def mk_axes(axes, name='Axes'):
     box.methods['remove'] = lambda itp, o, a, k: o.attrs['_list'].remove(a[0]) if a[0] in o.attrs['_list'] else (_ for _ in ()).throw(Raised('ValueError'))
     box.methods['pop'] = lambda itp, o, a, k: o.attrs['_list'].pop(*a)
     box.methods['index'] = lambda itp, o, a, k: pos_of(o, a[0]) if not isinstance(a[0], Obj) else o.attrs['_list'].index(a[0])
+    if P_HOLDER:
+        box.hooks['getattr'] = class_methods(P_HOLDER[0], AXES, skip=('copy', 'append', 'insert', 'remove', 'pop', 'index', '__getitem__', '__setitem__'))
     return box
 
 
@@ -228,6 +233,30 @@ def mk_array(P, name, dims, sizes, cls=DA, axes=None, values=None, attrs=None, o
     return arr
 
 
+def class_attrs(P, clsq, overrides_of):
+    """getattr hook of a class token: classmethods / staticmethods of the repository class are interpreted (cls = the token itself)"""
+    ci = P.classes.get(clsq)
+
+    def hook(itp, t, attr):
+        if ci is None:
+            return KeyError
+        m = P.lookup(ci, attr)
+        if m is None:
+            return KeyError
+        r = P.resolve_member(m)
+        if r is not None and r[0] == 'func':
+            fi = r[1]
+            decs = [__import__('ast').unparse(d) for d in fi.node.decorator_list]
+            fn = Fn(fi.node, None, module_glob(P, fi.module, overrides_of()), fi.name)
+            if 'classmethod' in decs:
+                return Bound(fn, t)
+            if 'staticmethod' in decs:
+                return fn
+            return fn
+        return KeyError
+    return hook
+
+
 def mk_np():
     """the few NumPy functions whose result *shape* the argument handling depends on; everything else is a symbolic call"""
     np = Obj('np', attrs={'newaxis': None, 'nan': tok('nan'), 'ndarray': TypeV('ndarray'), 'integer': TypeV('integer'), 'inf': tok('inf'), 'ma': tok('np.ma')})
@@ -267,6 +296,20 @@ def mk_np():
         shp = [arr.attrs['shape'][i] for i in axes]
         return mk_values('np.rollaxis(%s, %d, %d)' % (arr.name, axis, start), shp)
     np.methods['rollaxis'] = rollaxis
+    np.methods['arange'] = lambda itp, o, a, k: mk_values('np.arange(%d)' % a[0], [a[0]]) if len(a) == 1 and isinstance(a[0], int) and not isinstance(a[0], bool) and not k \
+        else Sym('call', 'np.arange', tuple(a), dict(k))
+    def allany(which):
+        def f(itp, o, a, k):
+            x = a[0]
+            if isinstance(x, bool) and not k:
+                return x
+            if isinstance(x, (list, tuple)) and not k and not any(isinstance(y, (Obj, list, tuple)) for y in x):
+                vals = [itp.truth(y) for y in x]
+                return all(vals) if which == 'all' else any(vals)
+            return Sym('call', 'np.' + which, tuple(a), dict(k))
+        return f
+    np.methods['all'] = allany('all')
+    np.methods['any'] = allany('any')
 
     def ndim(itp, o, a, k):
         x = a[0]
@@ -296,9 +339,28 @@ def mk_np():
         x = a[0]
         if isinstance(x, Obj) and 'ndarray' in x.types and not k and len(a) == 1:
             return x
+        if isinstance(x, Obj) and 'Axis' in x.types and not k and len(a) == 1:
+            lab = x.attrs['values']
+            return asarray(itp, o, [lab], {}) if isinstance(lab, list) else mk_values(render(lab), [x.attrs['size']])
+        if (isinstance(x, (int, float, str, bool, dict)) or x is None) and len(a) == 1:
+            return mk_values('np.asarray(%s)' % render(x), [])                    # a 0-d array
+        if isinstance(x, (list, tuple)) and x and all(isinstance(y, (list, tuple)) for y in x) and len(a) == 1:
+            lens = set(len(y) for y in x)
+            if len(lens) == 1 and not any(isinstance(z, (list, tuple, Obj, Sym)) for y in x for z in y):
+                return mk_values('np.asarray(%s)' % render([list(y) for y in x]), [len(x), lens.pop()])
+            if len(lens) > 1 and k.get('dtype') is None:
+                raise Raised('ValueError')                                        # ragged nested sequences (NumPy >= 1.24)
+            inner = [z for y in x for z in y]
+            if any(isinstance(z, (list, tuple)) for z in inner) and not all(isinstance(z, (list, tuple)) for z in inner) and k.get('dtype') is None:
+                raise Raised('ValueError')
+        if isinstance(x, (list, tuple)) and any(isinstance(y, (list, tuple)) for y in x) and not all(isinstance(y, (list, tuple)) for y in x) and len(a) == 1 \
+                and k.get('dtype') is None:
+            raise Raised('ValueError')
         if isinstance(x, (list, tuple)) and not any(isinstance(y, (list, tuple, Obj, Sym)) for y in x) and not k and len(a) == 1:
             v = mk_values('np.asarray(%s)' % render(list(x)), [len(x)])
             v.attrs['_items'] = list(x)
+            v.hooks['getitem'] = lambda itp_, o_, i_: o_.attrs['_items'][i_] if isinstance(i_, int) and -len(o_.attrs['_items']) <= i_ < len(o_.attrs['_items']) else \
+                ((_ for _ in ()).throw(Raised('IndexError')) if isinstance(i_, int) else Sym('sub', o_, i_))
             v.hooks['iter'] = lambda itp_, o_: list(o_.attrs['_items'])
             v.hooks['length'] = lambda itp_, o_: len(o_.attrs['_items'])
             return v
@@ -308,7 +370,20 @@ def mk_np():
     return np
 
 
+def has_abstract_in(xs):
+    return any(isinstance(x, (Sym, Obj)) for x in xs)
+
+
 def std_overrides(P):
+    ov = {}
+    axes_t = TypeV('Axes', ctor=axes_factory)
+    axes_t.getattr = class_attrs(P, AXES, lambda: ov)
+    ov.update(_std(P))
+    ov['Axes'] = axes_t
+    return ov
+
+
+def _std(P):
     return {'Axis': TypeV('Axis', ctor=axis_factory), 'MultiAxis': TypeV('MultiAxis', bases=('Axis',), ctor=multiaxis_factory), 'Axes': TypeV('Axes', ctor=axes_factory),
             'np': mk_np(), 'numpy': mk_np()}
 
@@ -501,7 +576,186 @@ def sc_broadcast(P):
     return out
 
 
+def sc_init_axes(P):
+    """_init_axes(axes, dims, labels, shape): every documented way of giving the axes of an array"""
+    out = []
+    L0, L1 = [10, 20], ['u', 'v', 'w']
+    def AX(n, lab):
+        return mk_axis(n, len(lab), list(lab))
+    forms2 = [
+        ('label lists + dims list', lambda: dict(axes=[list(L0), list(L1)], dims=['p', 'q'], shape=(2, 3))),
+        ('label lists + dims tuple', lambda: dict(axes=[list(L0), list(L1)], dims=('p', 'q'), shape=(2, 3))),
+        ('tuple of label lists + dims', lambda: dict(axes=(list(L0), list(L1)), dims=['p', 'q'], shape=(2, 3))),
+        ('label lists, no dims', lambda: dict(axes=[list(L0), list(L1)], shape=(2, 3))),
+        ('labels= keyword + dims', lambda: dict(labels=[list(L0), list(L1)], dims=['p', 'q'], shape=(2, 3))),
+        ('(name, labels) pairs', lambda: dict(axes=[('p', list(L0)), ('q', list(L1))], shape=(2, 3))),
+        ('tuple of (name, labels) pairs', lambda: dict(axes=(('p', list(L0)), ('q', list(L1))), shape=(2, 3))),
+        ('Axis objects', lambda: dict(axes=[AX('p', L0), AX('q', L1)], shape=(2, 3))),
+        ('tuple of Axis objects', lambda: dict(axes=(AX('p', L0), AX('q', L1)), shape=(2, 3))),
+        ('dict + dims', lambda: dict(axes={'q': list(L1), 'p': list(L0)}, dims=['p', 'q'], shape=(2, 3))),
+        ('dict + dims in the other order', lambda: dict(axes={'p': list(L0), 'q': list(L1)}, dims=['q', 'p'], shape=(3, 2))),
+        ('dims only', lambda: dict(dims=['p', 'q'], shape=(2, 3))),
+        ('names as axes', lambda: dict(axes=['p', 'q'], shape=(2, 3))),
+        ('nothing but the shape', lambda: dict(shape=(2, 3))),
+        ('nothing at all', lambda: dict()),
+        ('dims only, no shape', lambda: dict(dims=['p', 'q'])),
+        ('empty list of axes', lambda: dict(axes=[], shape=())),
+        ('a string as axes (invalid)', lambda: dict(axes='pq', shape=(2, 3))),
+        ('mixed Axis / list (invalid)', lambda: dict(axes=[AX('p', L0), list(L1)], shape=(2, 3))),
+        ('too many dims for the label lists', lambda: dict(axes=[list(L0), list(L1)], dims=['p', 'q', 'r'], shape=(2, 3))),
+        ('too many names for the shape', lambda: dict(dims=['p', 'q', 'r'], shape=(2, 3))),
+        ('ndarray labels + dims', lambda: dict(axes=[mk_values('LAB0', [2]), mk_values('LAB1', [3])], dims=['p', 'q'], shape=(2, 3))),
+    ]
+    forms1 = [
+        ('1-d: bare label list + dims str', lambda: dict(axes=list(L1), dims='q', shape=(3,))),
+        ('1-d: bare label list, no dims', lambda: dict(axes=list(L1), shape=(3,))),
+        ('1-d: (name, labels) tuple', lambda: dict(axes=('q', list(L1)), shape=(3,))),
+        ('1-d: [(name, labels)]', lambda: dict(axes=[('q', list(L1))], shape=(3,))),
+        ('1-d: Axis object', lambda: dict(axes=AX('q', L1), shape=(3,))),
+        ('1-d: [Axis]', lambda: dict(axes=[AX('q', L1)], shape=(3,))),
+        ('1-d: (Axis,)', lambda: dict(axes=(AX('q', L1),), shape=(3,))),
+        ('1-d: [labels] + dims list', lambda: dict(axes=[list(L1)], dims=['q'], shape=(3,))),
+        ('1-d: (labels,) + dims tuple', lambda: dict(axes=(list(L1),), dims=('q',), shape=(3,))),
+        ('1-d: dims str only', lambda: dict(dims='q', shape=(3,))),
+        ('1-d: dims list only', lambda: dict(dims=['q'], shape=(3,))),
+        ('1-d: nothing', lambda: dict(shape=(3,))),
+        ('1-d: labels= keyword bare list + dims str', lambda: dict(labels=list(L1), dims='q', shape=(3,))),
+        ('1-d: ndarray labels + dims str', lambda: dict(axes=mk_values('LAB1', [3]), dims='q', shape=(3,))),
+        ('1-d: (name, ndarray labels)', lambda: dict(axes=('q', mk_values('LAB1', [3])), shape=(3,))),
+        ('1-d: single-label list', lambda: dict(axes=[10], dims='q', shape=(1,))),
+        ('1-d: (name, single-label list)', lambda: dict(axes=('q', [10]), shape=(1,))),
+        ('1-d: dict + dims', lambda: dict(axes={'q': list(L1)}, dims=['q'], shape=(3,))),
+        ('1-d: empty label list + dims str', lambda: dict(axes=[], dims='q', shape=(0,))),
+    ]
+    for label, mk in forms2 + forms1:
+        out.append((label, lambda mk=mk: ([], mk(), OPTS(P))))
+    return out
+
+
+def sc_array1d_equiv(P):
+    out = []
+    vals = [('scalar int', 3), ('str', 'abc'), ('None', None), ('list of ints', [1, 2, 3]), ('list of str', ['a', 'b']), ('empty list', []), ('single-label list', [7]),
+            ('tuple of ints', (1, 2)), ('nested list', [[1, 2], [3, 4]]), ('list holding one label list', [[1, 2, 3]]), ('dict', {'a': 1}), ('list of tuples', [(1, 2), (3, 4)])]
+    for label, v in vals:
+        out.append((label, lambda v=v: ([__import__('copy').deepcopy(v)], {}, OPTS(P))))
+    out.append(('Axis object', lambda: ([mk_axis('q', 3, [1, 2, 3])], {}, OPTS(P))))
+    out.append(('1-d ndarray', lambda: ([mk_values('X', [3])], {}, OPTS(P))))
+    out.append(('2-d ndarray', lambda: ([mk_values('X', [2, 3])], {}, OPTS(P))))
+    out.append(('0-d ndarray', lambda: ([mk_values('X', [])], {}, OPTS(P))))
+    out.append(('empty ndarray', lambda: ([mk_values('X', [0])], {}, OPTS(P))))
+    return out
+
+
+def label_oracle(sym):
+    """truth of symbolic label comparisons: two label tokens are equal iff they are the same token (np.all(A == B), np.any(A != B), A == B)"""
+    t = sym.t
+    if t[0] == 'call' and isinstance(t[1], str) and t[1] in ('np.all', 'np.any') and len(t[2]) == 1 and isinstance(t[2][0], Sym):
+        inner = label_oracle(t[2][0])
+        return inner
+    if t[0] == 'call' and isinstance(t[1], Sym) and render(t[1]) in ('np.all', 'np.any') and len(t[2]) == 1 and isinstance(t[2][0], Sym):
+        return label_oracle(t[2][0])
+    if t[0] == 'op' and t[1] in ('==', '!=') and len(t) == 4:
+        a, b = render(t[2]), render(t[3])
+        same = a == b
+        return same if t[1] == '==' else not same
+    if t[0] == 'op' and t[1] == 'not' and isinstance(t[2], Sym):
+        r = label_oracle(t[2])
+        return None if r is None else not r
+    return None
+
+
+def align_stub(P):
+    """align(arrays, **kw) as a black box: the same arrays, their data marked as aligned with the options given (axes unchanged)"""
+    def f(itp, a, k):
+        arrays = itp.iterate(a[0])
+        out = []
+        opts = ', '.join('%s=%s' % (kk, render(vv)) for kk, vv in sorted(k.items()))
+        for x in arrays:
+            if not (isinstance(x, Obj) and 'DimArray' in x.types):
+                raise Raised('TypeError')
+            out.append(mk_array(P, x.name, None, None, axes=itp.iterate(x.attrs['axes']), values=Sym('call', 'ALIGNED', (x.attrs['values'],), {'opts': opts}),
+                                attrs=x.attrs['attrs'], overrides=x.hooks.get('overrides')))
+        return out
+    return f
+
+
+def arr_of(P, name, spec, labels=None):
+    """spec: [(dim, size)] ; labels: {dim: token name} (default L_<dim>, so that equal dims of two arrays carry equal labels)"""
+    labels = labels or {}
+    axes = [mk_axis(d, n, tok(labels.get(d, 'L_' + d))) for d, n in spec]
+    return mk_array(P, name, None, None, axes=axes, values=mk_values('V_' + name, [n for _, n in spec]), overrides=std_overrides(P))
+
+
+def sc_stack(P):
+    out = []
+    O = lambda **m: dict(OPTS(P, **m), oracle=label_oracle)
+    xy = [('x', 2), ('y', 3)]
+    yx = [('y', 3), ('x', 2)]
+    two = lambda: [arr_of(P, 'A', xy), arr_of(P, 'B', xy)]
+    out.append(('two equal-axes arrays, axis and keys', lambda: ([two()], {'axis': 'k', 'keys': ['p', 'q']}, O())))
+    out.append(('two equal-axes arrays, axis only', lambda: ([two()], {'axis': 'k'}, O())))
+    out.append(('two equal-axes arrays, positional axis and keys', lambda: ([two(), 'k', ['p', 'q']], {}, O())))
+    out.append(('tuple of arrays', lambda: ([tuple(two())], {'axis': 'k', 'keys': ['p', 'q']}, O())))
+    out.append(('dict of arrays', lambda: ([dict(zip(['p', 'q'], two()))], {'axis': 'k'}, O())))
+    out.append(('dict of arrays with explicit keys in another order', lambda: ([dict(zip(['p', 'q'], two()))], {'axis': 'k', 'keys': ['q', 'p']}, O())))
+    out.append(('one array', lambda: ([[arr_of(P, 'A', xy)]], {'axis': 'k', 'keys': ['p']}, O())))
+    out.append(('three arrays', lambda: ([two() + [arr_of(P, 'C', xy)]], {'axis': 'k', 'keys': ['p', 'q', 'r']}, O())))
+    out.append(('second array with permuted dimensions', lambda: ([[arr_of(P, 'A', xy), arr_of(P, 'B', yx)]], {'axis': 'k', 'keys': ['p', 'q']}, O())))
+    out.append(('first array with permuted dimensions', lambda: ([[arr_of(P, 'A', yx), arr_of(P, 'B', xy)]], {'axis': 'k', 'keys': ['p', 'q']}, O())))
+    out.append(('different labels along y, no align', lambda: ([[arr_of(P, 'A', xy), arr_of(P, 'B', xy, {'y': 'L_y2'})]], {'axis': 'k', 'keys': ['p', 'q']}, O())))
+    out.append(('different single labels along a size-1 axis, no align', lambda: ([[arr_of(P, 'A', [('x', 1)]), arr_of(P, 'B', [('x', 1)], {'x': 'L_x2'})]], {'axis': 'k', 'keys': ['p', 'q']}, O())))
+    out.append(('different dimension sets', lambda: ([[arr_of(P, 'A', xy), arr_of(P, 'B', [('x', 2)])]], {'axis': 'k', 'keys': ['p', 'q']}, O())))
+    out.append(('axis name already a dimension', lambda: ([two()], {'axis': 'x', 'keys': ['p', 'q']}, O())))
+    out.append(('integer axis (invalid)', lambda: ([two()], {'axis': 0, 'keys': ['p', 'q']}, O())))
+    out.append(('too many keys', lambda: ([two()], {'axis': 'k', 'keys': ['p', 'q', 'r']}, O())))
+    out.append(('a non-DimArray element', lambda: ([[arr_of(P, 'A', xy), 3]], {'axis': 'k', 'keys': ['p', 'q']}, O())))
+    out.append(('align=True', lambda: ([two()], {'axis': 'k', 'keys': ['p', 'q'], 'align': True}, O(align_=align_stub(P)))))
+    out.append(('no axis name', lambda: ([two()], {}, O())))
+    return out
+
+
+def sc_concatenate(P):
+    out = []
+    O = lambda **m: dict(OPTS(P, **m), oracle=label_oracle)
+    xy = [('x', 2), ('y', 3)]
+    yx = [('y', 3), ('x', 2)]
+    xyz = [('x', 2), ('y', 3), ('z', 4)]
+    xzy = [('x', 2), ('z', 4), ('y', 3)]
+    A = lambda spec, lab=None: arr_of(P, 'A', spec, lab)
+    B = lambda spec, lab=None: arr_of(P, 'B', spec, dict({'x': 'L_xB'}, **(lab or {})))
+    for ax in (0, 1, -1, -2, 'x', 'y'):
+        labB = {'x': 'L_xB'} if ax in (0, -2, 'x') else {'x': 'L_x', 'y': 'L_yB'}
+        out.append(('two 2-d arrays along %r' % (ax,), lambda ax=ax, labB=labB: ([[A(xy), arr_of(P, 'B', xy, labB)]], {'axis': ax}, O())))
+    out.append(('two 2-d arrays, axis omitted', lambda: ([[A(xy), B(xy)]], {}, O())))
+    out.append(('tuple of arrays', lambda: ([(A(xy), B(xy))], {'axis': 'x'}, O())))
+    out.append(('one array', lambda: ([[A(xy)]], {'axis': 'x'}, O())))
+    out.append(('three arrays', lambda: ([[A(xy), B(xy), arr_of(P, 'C', xy, {'x': 'L_xC'})]], {'axis': 'x'}, O())))
+    out.append(('second array with permuted dimensions', lambda: ([[A(xy), B(yx)]], {'axis': 'x'}, O())))
+    out.append(('first array with permuted dimensions, axis by name', lambda: ([[A(yx), B(xy)]], {'axis': 'x'}, O())))
+    out.append(('3-d, second array with permuted secondary dimensions', lambda: ([[A(xyz), B(xzy)]], {'axis': 'x'}, O())))
+    out.append(('secondary labels differ, no align', lambda: ([[A(xy), B(xy, {'y': 'L_y2'})]], {'axis': 'x'}, O())))
+    out.append(('secondary labels differ, _no_check', lambda: ([[A(xy), B(xy, {'y': 'L_y2'})]], {'axis': 'x', '_no_check': True}, O())))
+    out.append(('secondary labels differ, align=True', lambda: ([[A(xy), B(xy, {'y': 'L_y2'})]], {'axis': 'x', 'align': True},
+                                                                 O(align_=align_stub(P)))))
+    out.append(('3-d align=True', lambda: ([[A(xyz), B(xyz)]], {'axis': 'y', 'align': True}, O(align_=align_stub(P)))))
+    out.append(('a Dataset element', lambda: ([[A(xy), Obj('DS', types=('Dataset',))]], {'axis': 'x'}, O())))
+    out.append(('a scalar element', lambda: ([[A(xy), 3]], {'axis': 'x'}, O())))
+    out.append(('not a list', lambda: ([A(xy)], {'axis': 'x'}, O())))
+    out.append(('unknown axis name', lambda: ([[A(xy), B(xy)]], {'axis': 'zz'}, O())))
+    return out
+
+
+def sc_axes_from(P):
+    """Axes.from_shape / from_arrays / from_dict called directly"""
+    out = []
+    return out
+
+
 SCENARIOS = {
+    'dimarray.core.axes._init_axes': (('C05',), sc_init_axes),
+    'dimarray.tools.is_array1d_equiv': (('C05',), sc_array1d_equiv),
+    'dimarray.core.align.stack': (('C12', 'C05'), sc_stack),
+    'dimarray.core.align.concatenate': (('C12',), sc_concatenate),
     'dimarray.core.reshape.transpose': (('C10', 'C04', 'C12'), sc_transpose),
     'dimarray.core.reshape.swapaxes': (('C10',), sc_swapaxes),
     'dimarray.core.reshape.rollaxis': (('C10',), sc_rollaxis),
